@@ -44,6 +44,7 @@ import PyttbModel.Lemmas.PresentationRun
 import PyttbModel.Lemmas.PresentationRelabelWitness
 import PyttbModel.Lemmas.PresentationTuckerWitness
 import PyttbModel.Lemmas.PresentationHosvdWitness
+import PyttbModel.Lemmas.PresentationTuckerRelabel
 namespace Pyttb
 open Pres
 
@@ -714,6 +715,28 @@ theorem C18_relabel_hosvd {p : List Nat} (eigh : Nat → Mat ℝ → List ℝ ×
       .ok (relabelT p T, trace.map (relabelRec p)) :=
   hosvdRun_relabel eigh X hX hp tol dimorder sequential ranks h
 
+/-- **Whole-run mode relabelling of Tucker-ALS.**  If `tucker_als` on `X` returns `out` (with the executed passes
+`recs`), then `tucker_als` on `X.permute(p)` with the rank vector relabelled (`gather ranks p`, a scalar rank expanded
+first), the start relabelled (`relabelTInit`: a given list gathered by `p`; `"random"` draws the same matrices, for
+the relabelled modes) and `dimorder` — default made explicit — mapped through `invPerm p` RETURNS `relabelOut p out`:
+factor list relabelled, core permuted, `uinit` relabelled, the same `iters`, `fit` and `normresidual`; pass by pass
+(`relabelIter`) the same fit, residual and fit change (hence the same stop iteration), the factors relabelled and the
+core permuted.  The projection on all factors but one multiplies the other modes in increasing order — a different
+order for the two problems (products in distinct modes commute); the Gram matrix `nvecs` is asked about for mode
+`invPerm p [n]` of the second problem IS the one for mode `n` of the first, so under the contract `NvecsSpec` and the
+determinacy hypothesis `DetRun` about the first run (as for `C18_scale_tucker_run`) the answers coincide
+(`Tk.nvecs_relabel`).  For `init = "nvecs"` (only) the relation of the two starts is a hypothesis. -/
+theorem C18_relabel_tucker_run {nvecs : Nat → Dense ℝ → Nat → Nat → Mat ℝ} (hC : NvecsSpec nvecs)
+    (uniform : Nat → Nat → Nat → Mat ℝ) {p : List Nat} (X : Dense ℝ) (hX : X.WF)
+    (hp : isPermOf p X.shape.length = true) (rank : List Nat) (stoptol : ℝ) (maxiters : Int)
+    (dimorder : Option (List Nat)) (init : Tk.Init ℝ) (hinit : InitRelabelOK nvecs p X init)
+    (hdet : DetRun nvecs uniform X rank maxiters dimorder init) {out : TaOut ℝ} {recs : List (IterRec ℝ)}
+    (h : tuckerAlsRun realOps nvecs uniform X rank stoptol maxiters dimorder init = .ok (out, recs)) :
+    tuckerAlsRun realOps nvecs uniform (permuteD p X) (gather (parseRank rank X.shape.length) p) stoptol maxiters
+        (some (qmap p (modeOrder dimorder X.shape.length))) (relabelTInit p init) =
+      .ok (relabelOut p out, recs.map (relabelIter p)) :=
+  tuckerAlsRun_relabel hC uniform X hX hp rank stoptol maxiters dimorder init hinit hdet h
+
 end hosvd_relabel
 
 /-! ### the hypotheses are satisfiable / the models compute something -/
@@ -806,6 +829,15 @@ example (seq : Bool) : ∃ T trace,
       .ok (Tk.relabelT [1, 0] T, trace.map (Tk.relabelRec [1, 0])) := by
   obtain ⟨⟨T, trace⟩, h⟩ := Tk.hosvd21_ok seq
   exact ⟨T, trace, h, C18_relabel_hosvd (p := [1, 0]) Tk.eighE1 Tk.X21 Tk.X21_WF (by decide) 0 (some [1, 0]) seq (some [1, 1]) h⟩
+-- relabelling of Tucker-ALS, all hypotheses of `C18_relabel_tucker_run` on the instance of the scaling example (service
+-- `Tk.svc1` satisfying the contract, the 1 × 1 array [[2]], ranks [1, 1], given start, determinacy), p = [1, 0]
+example : ∃ out recs,
+    Tk.tuckerAlsRun Tk.realOps Tk.svc1 (fun _ _ _ => []) Tk.X11 [1, 1] 0 1 (some [1, 0]) (.list [[[1]], [[1]]]) = .ok (out, recs) ∧
+    Tk.tuckerAlsRun Tk.realOps Tk.svc1 (fun _ _ _ => []) (Tk.permuteD [1, 0] Tk.X11) [1, 1] 0 1 (some [0, 1])
+      (.list [[[1]], [[1]]]) = .ok (Tk.relabelOut [1, 0] out, recs.map (Tk.relabelIter [1, 0])) := by
+  obtain ⟨⟨out, recs⟩, h⟩ := Tk.run11_ok
+  exact ⟨out, recs, h, C18_relabel_tucker_run (p := [1, 0]) Tk.svc1_spec (fun _ _ _ => []) Tk.X11
+    (show ([2] : List ℝ).length = numel [1, 1] by decide) (by decide) [1, 1] 0 1 (some [1, 0]) (.list [[[1]], [[1]]]) trivial (Tk.detRun11 _ _ _ _ _) h⟩
 -- the MU fix-up acts exactly on the (near-)zero entries with a positive multiplier, never in the first iteration
 example : muFixupIf 1 (1 : Int) 1 [[1, 0], [2, 3]] [[0, 0], [5, 0]] = [[1, 0], [5, 1]] ∧
     muFixupIf 0 (1 : Int) 1 [[1, 0], [2, 3]] [[0, 0], [5, 0]] = [[0, 0], [5, 0]] ∧
